@@ -299,11 +299,18 @@ class SymReal:
             fr = Fraction(zs.numerator_as_long(), zs.denominator_as_long())
             r = round(fr, n) if n is not None else round(fr)
             return SymReal(_q(Fraction(r)))
+        # round is a function: the same argument term rounds to the same integer wherever it is rounded on this path (ties stay open, but consistently)
+        key = (zs.get_id(), n)
+        memo = _ENG.__dict__.setdefault("round_memo", {})
+        if key in memo:
+            return SymReal(memo[key][1])
         _ENG.round_events.append((str(zs)[:80], n))
         k = _ENG.fresh_int("round_k")
         sc = z3.RatVal(10 ** (n or 0), 1) if (n or 0) >= 0 else z3.RatVal(1, 10 ** (-n))
         _ENG.solver.add(zs * sc - z3.ToReal(k) <= z3.RatVal(1, 2), zs * sc - z3.ToReal(k) >= z3.RatVal(-1, 2))
-        return SymReal(_simp(z3.ToReal(k) / sc))
+        out = _simp(z3.ToReal(k) / sc)
+        memo[key] = (zs, out)      # zs kept alive so that its id is not reused
+        return SymReal(out)
 
     def trunc_toward_zero(s):
         """what storing into an int64 numpy array does to a non-integer value"""
@@ -529,6 +536,7 @@ class Engine:
                 self._keep = []   # keeps decided ASTs alive so that their ids are not reused
                 self.div0_events = []
                 self.round_events = []
+                self.round_memo = {}
                 self.trunc_events = []
                 self.stats["paths"] += 1
                 try:
